@@ -712,6 +712,116 @@ fn window_scenarios(rep: &mut Report, prop: &str, args: &Args, rounds: u64) {
                 let _ = await_log(&sh, |st| st.log.iter().any(|e| matches!(e, Ev::SinkDrop { .. }))).and_then(|_| await_no_library_thread());
                 set_current(None);
             }
+            // ---- window D: flush / stats / counter reads by a caller while the worker holds one entry and failing entries wait ----
+            {
+                let name = "D:run.taken(worker holds an entry; failing entries queued; a caller flushes and reads telemetry)";
+                let sh = Shared::new(false);
+                set_current(Some(sh.clone()));
+                let with_handler = round % 2 == 0;
+                let mut b = QueuingMetricSink::builder();
+                if let Some(c) = cap {
+                    b = b.with_capacity(c);
+                }
+                let q = if with_handler { b.with_error_handler(handler_for(sh.clone())).build(GatedSink { sh: sh.clone() }) } else { b.build(GatedSink { sh: sh.clone() }) };
+                let _ = await_log(&sh, |st| st.log.iter().any(|e| matches!(e, Ev::Point { name: "queuing.run.wait", .. })));
+                arm("queuing.run.taken");
+                rep.eval();
+                let first = format!("w{}.d-first|ok", round);
+                let _ = panics::guard(|| q.emit(&first));
+                if !await_parked("queuing.run.taken", max) {
+                    rep.inconclusive("window D: the worker never reached queuing.run.taken");
+                    disarm_all();
+                } else {
+                    let n = cap.unwrap_or(3).min(4);
+                    let mut queued: Vec<String> = Vec::new();
+                    for k in 0..n {
+                        let t = format!("w{}.d{}|{}", round, k, if k % 2 == 0 { format!("err{}", k) } else { "ok".to_string() });
+                        if q.emit(&t).is_ok() {
+                            queued.push(t);
+                        }
+                    }
+                    // the caller's calls that are not emits: none of them may run the wrapped sink's emit or the handler
+                    let calls = in_call("window D: flush + stats + counters on the caller thread", || Json::Null, || panics::guard(|| {
+                        let f = q.flush();
+                        let _ = q.stats();
+                        let _ = (q.queued(), q.submitted(), q.drained(), q.panics());
+                        let c2 = q.clone();
+                        let f2 = c2.flush();
+                        drop(c2);
+                        (f.is_ok(), f2.is_ok())
+                    }));
+                    rep.obs("forced_window_D_caller_calls", 1);
+                    let log = sh.log();
+                    let ran_on_caller: Vec<String> = log.iter().filter_map(|e| match e { Ev::Enter { metric, on_harness_thread: true, .. } => Some(metric.clone()), _ => None }).collect();
+                    let handler_on_caller = log.iter().filter(|e| matches!(e, Ev::Handler { on_harness_thread: true, .. })).count();
+                    let entered_early = log.iter().filter(|e| matches!(e, Ev::Enter { .. })).count();
+                    if handler_on_caller > 0 {
+                        report(rep, V { props: vec!["C16"], rule: "R8", class: "handler-on-caller-thread".into(), detail: format!("the error handler ran {} time(s) on the thread that called flush()/stats() while the worker was parked", handler_on_caller) }, &log, name);
+                    }
+                    if !ran_on_caller.is_empty() {
+                        report(rep, V { props: vec!["C10"], rule: "R5", class: "sink-on-caller-thread".into(), detail: format!("flush()/stats() ran the wrapped sink's emit for {:?} on the calling thread", ran_on_caller) }, &log, name);
+                    }
+                    if entered_early > 0 {
+                        // the worker holds the first entry and is parked: nothing may reach the wrapped sink before it
+                        report(rep, V { props: vec!["C11"], rule: "R6", class: "overtaken-in-queue".into(), detail: format!("{} queued metric(s) reached the wrapped sink while the earlier entry was still held by the parked worker", entered_early) }, &log, name);
+                    }
+                    match calls {
+                        Ok((true, true)) => {}
+                        Ok(other) => report(rep, V { props: vec!["C06"], rule: "F3", class: "flush-error".into(), detail: format!("flush through the queuing sink returned (ok, ok) = {:?} although the wrapped sink's flush succeeds", other) }, &log, name),
+                        Err(p) => report(rep, V { props: vec!["C10", "C20"], rule: "R5", class: "caller-panicked".into(), detail: p }, &log, name),
+                    }
+                    release("queuing.run.taken");
+                    let want = 1 + queued.len();
+                    let res = await_log(&sh, |st| st.log.iter().filter(|e| matches!(e, Ev::Exit { .. })).count() >= want);
+                    if let Err(st) = res {
+                        if st.is_verdict() {
+                            report(rep, V { props: vec!["C08"], rule: "R1", class: "accepted-never-delivered".into(), detail: st.describe() }, &sh.log(), name);
+                        } else {
+                            rep.inconclusive(st.describe());
+                        }
+                    } else {
+                        // each failure is reported once, on the worker's thread, before the next metric is processed
+                        settle();
+                        let log = sh.log();
+                        let order: Vec<String> = log.iter().filter_map(|e| if let Ev::Enter { metric, .. } = e { Some(metric.clone()) } else { None }).collect();
+                        let mut expect_order = vec![first.clone()];
+                        expect_order.extend(queued.iter().cloned());
+                        if order != expect_order {
+                            report(rep, V { props: vec!["C11", "C08"], rule: "R6", class: "order-or-multiplicity".into(), detail: format!("wrapped sink saw {:?}, accepted in this order: {:?}", order, expect_order) }, &log, name);
+                        }
+                        let mut i = 0;
+                        while i < log.len() {
+                            if let Ev::Exit { metric, out: Out::Err(_), tid } = &log[i] {
+                                let next_enter = log[i + 1..].iter().position(|e| matches!(e, Ev::Enter { .. })).map(|p| i + 1 + p).unwrap_or(log.len());
+                                let hs: Vec<&Ev> = log[i + 1..next_enter].iter().filter(|e| matches!(e, Ev::Handler { .. })).collect();
+                                if with_handler {
+                                    if hs.len() != 1 {
+                                        report(rep, V { props: vec!["C16"], rule: "R8", class: if hs.is_empty() { "handler-not-called".into() } else { "handler-called-twice".into() }, detail: format!("{} handler calls between the failure of {} and the next delivery", hs.len(), metric) }, &log, name);
+                                    } else if let Ev::Handler { msg, tid: ht, on_harness_thread, .. } = hs[0] {
+                                        if !msg.contains(metric.as_str()) {
+                                            report(rep, V { props: vec!["C16"], rule: "R8", class: "handler-wrong-error".into(), detail: format!("handler got {} for the failure of {}", msg, metric) }, &log, name);
+                                        }
+                                        if ht != tid || *on_harness_thread {
+                                            report(rep, V { props: vec!["C16"], rule: "R8", class: "handler-wrong-thread".into(), detail: format!("handler ran on thread {}, the wrapped sink failed on thread {}", ht, tid) }, &log, name);
+                                        }
+                                    }
+                                }
+                            }
+                            i += 1;
+                        }
+                        let hcount = log.iter().filter(|e| matches!(e, Ev::Handler { .. })).count();
+                        let fails = log.iter().filter(|e| matches!(e, Ev::Exit { out: Out::Err(_), .. })).count();
+                        if hcount != if with_handler { fails } else { 0 } {
+                            report(rep, V { props: vec!["C16"], rule: "R8", class: "handler-count".into(), detail: format!("{} failures of the wrapped sink, {} handler calls (handler configured: {})", fails, hcount, with_handler) }, &log, name);
+                        }
+                        rep.distinct(&format!("winD|{:?}|{}|{}", cap, with_handler, fails));
+                    }
+                }
+                drop(q);
+                let _ = await_log(&sh, |st| st.log.iter().any(|e| matches!(e, Ev::SinkDrop { .. }))).and_then(|_| await_no_library_thread());
+                disarm_all();
+                set_current(None);
+            }
             // ---- windows C: the stop request arrives at the worst moments ----
             for (wname, worker_point, dropper_point, busy) in [
                 ("C1:worker checked the stop flag, has not started waiting; then the last handle is dropped", Some("queuing.run.wait"), None, false),
@@ -853,7 +963,7 @@ fn blocked_case(rep: &mut Report, prop: &str, args: &Args, cs: u64) {
         3 => Some(2),
         4 => Some(3),
         // capacities around the limits of 8- and 16-bit counters
-        5 => Some(*rng.pick(&[255usize, 256, 257, 1000])),
+        5 | 7 => Some(*rng.pick(&[255usize, 256, 257, 1000, 1024, 1025, 1500, 2048, 5000])),
         6 if rng.chance(1, 4) => Some(*rng.pick(&[65535usize, 65536, 65537])),
         _ => Some(rng.range(1, 12) as usize),
     };
@@ -1020,7 +1130,7 @@ fn droprace_case(rep: &mut Report, prop: &str, args: &Args, cs: u64) {
         1 => Some(1usize),
         _ => Some(rng.range(2, 8) as usize),
     };
-    let n = *rng.pick(&[2usize, 2, 2, 3, 4]);
+    let n = *rng.pick(&[1usize, 2, 2, 2, 3, 4]);
     let queued = rng.below(4) as usize;
     rep.eval();
     let sh = Shared::new(false);
@@ -1039,8 +1149,10 @@ fn droprace_case(rep: &mut Report, prop: &str, args: &Args, cs: u64) {
     let go = Arc::new(AtomicU64::new(0));
     let mut handles: Vec<QueuingMetricSink> = (1..n).map(|_| q.clone()).collect();
     handles.push(q);
+    // in some races a handle goes away because its owner thread is unwinding from a panic of its own
+    let unwinding = rng.chance(1, 3);
     let mut joins = Vec::new();
-    for h in handles {
+    for (hi, h) in handles.into_iter().enumerate() {
         let go = go.clone();
         joins.push(std::thread::spawn(move || {
             let _reg = procmon::Registration::new();
@@ -1048,8 +1160,21 @@ fn droprace_case(rep: &mut Report, prop: &str, args: &Args, cs: u64) {
             while go.load(Ordering::SeqCst) < n as u64 {
                 std::hint::spin_loop();
             }
-            panics::guard(move || drop(h))
+            if unwinding && hi % 2 == 0 {
+                // the handle is a local of a closure that panics: it is dropped during unwinding
+                let r = panics::guard(move || {
+                    let _owned = h;
+                    panic!("scripted-panic: owner of a handle unwinds");
+                });
+                let _ = r;
+                Ok(())
+            } else {
+                panics::guard(move || drop(h))
+            }
         }));
+    }
+    if unwinding {
+        rep.obs("handles_dropped_during_unwinding", 1);
     }
     let mut drop_panicked = None;
     for j in joins {
@@ -1059,7 +1184,7 @@ fn droprace_case(rep: &mut Report, prop: &str, args: &Args, cs: u64) {
     }
     rep.obs("concurrent_last_drop_races", 1);
     rep.distinct(&format!("droprace|{:?}|n{}|q{}", cap, n, queued));
-    let cfg = jobj! {"capacity" => format!("{:?}", cap), "handles_dropped_concurrently" => n, "queued_before" => queued};
+    let cfg = jobj! {"capacity" => format!("{:?}", cap), "handles_dropped_concurrently" => n, "queued_before" => queued, "some_dropped_while_unwinding" => unwinding};
     let mut report = |rep: &mut Report, props: &[&str], class: &str, detail: String| {
         for p in props {
             if *p == prop {
